@@ -20,12 +20,15 @@ import re
 from .. import core, molgen, wire
 
 LEVEL = 'proof'
-LEVEL_TEXT = ('The matcher (query linearisation, explicit-stack search with exact closure-set test, component assignment, scope, '
-              'automorphism filter, lazy product, operators) is modelled function by function in Lean and proved sound, complete and '
-              'duplicate-free against a declarative embedding specification for ALL patterns/targets/compatibility relations; the '
-              'model is tied to the working tree by differential execution against the real pure-Python matcher on structured '
-              'cases, compared as multisets. Proof is the right level because the property is a universally quantified statement '
-              'about a search algorithm whose atom/bond predicates can be abstracted.')
+LEVEL_TEXT = ('The matcher is modelled function by function in Lean (query linearisation, explicit-stack search with truncation and '
+              'exact closure-set test, component assignment via permutations, scope, lazy product, dict merge, automorphism filter, '
+              'operators) and the WHOLE call is proved exact: for all well-formed patterns/targets, all scopes and all compatibility '
+              'relations, get_mapping terminates normally and returns, without duplicates, exactly the maps satisfying the '
+              'declarative specification IsEmbedding (get_mapping_exact), one per image set with the filter (get_mapping_filtered); '
+              'the DFS compiler, the stack machine (= recursive enumerator), lazy_product and permutations each have their own '
+              'theorem. The model is tied to the working tree by differential execution against the real pure-Python matcher on '
+              'structured cases compared as multisets, with atom/bond compatibility evaluated by the model from attributes. Proof is '
+              'the right level because the property is a universally quantified statement about a search algorithm.')
 LEVEL_NOTE = ('Trusted: the hand transcription Model/Iso.lean (validated by K, not derived from the Python text), the harness '
               '(wire encoding, canonicalisation, compatibility tables computed with the real __eq__), Lean kernel. Atom/bond '
               'equality semantics are parameters (C08). The Cython matcher and the stereo post-filter are outside the model.')
